@@ -81,8 +81,11 @@ META = {
             "texts: parsed by Coq from the raw lines (Gen/Src_rules.v) and compared with the real compiled ordering rulebook on "
             "every run; C08_rank's guard (pairwise disjoint sibling languages) is NOT established for them: a conservative "
             "literal-word test lists the sibling pairs it cannot separate (evidence: shipped_rules.order_sibling_overlaps; the "
-            "list is complete, C08_shipped_overlaps_complete); that the test itself is conservative for the pattern model is "
-            "stated only (C08_overlap_test_sound_statement). Shipped runs (testing, harness/shipped_run.py): real patches "
+            "list is complete, C08_shipped_overlaps_complete); that the test itself is conservative for the pattern model "
+            "(two rules it separates are matched, directly or in reverse form, by no common row) is PROVED of the model "
+            "matcher ym for all rules, prefixes and rows (C08_overlap_test_sound; hence unlisted top-level siblings with "
+            "meeting scopes share no row, C08_shipped_unlisted_disjoint) - about the pattern model, whose tie to "
+            "compile_row_regexp is C07's differential testing. Shipped runs (testing, harness/shipped_run.py): real patches "
             "computed with get_rulebook(hw) over rows instantiated from the shipped *.order rule lines - every "
             "%order_reverse rule of every *.order file: its row without the negation word removed, beside removed and added "
             "rows of other top-level rules - are judged by Coq against the ordering rulebook Coq parses from the RAW lines "
